@@ -52,6 +52,8 @@ static _Atomic rid_t c_b = 0;
 static _Atomic nid_t gvt_nodes;
 /// Set once the calling thread is running the final flushing reductions of gvt_msg_drain()
 static __thread bool drain_flush;
+/// Set when the calling thread completes a reduction, whatever the computed value is
+static __thread bool gvt_round_done;
 
 __thread _Bool gvt_phase;
 __thread uint32_t remote_msg_seq[2][MAX_NODES];
@@ -258,8 +260,12 @@ static bool gvt_node_phase_run(void)
 simtime_t gvt_phase_run(void)
 {
 	RSV_YIELD(RSV_SITE_GVT_PHASE);
-	if(unlikely(thread_phase))
-		return gvt_node_phase_run() ? *reducing_p : 0.0;
+	if(unlikely(thread_phase)) {
+		if(!gvt_node_phase_run())
+			return 0.0;
+		gvt_round_done = true;
+		return *reducing_p;
+	}
 
 	if(unlikely(atomic_load_explicit(&c_b, memory_order_relaxed)))
 		gvt_start_processing();
@@ -314,7 +320,10 @@ void gvt_msg_drain(void)
 
 	for(int i = 0; i < 2; ++i) { // flush both gvt phases
 		gvt_timer = 0;       // this satisfies the timer condition
-		while(!gvt_phase_run())
+		// the return value can't tell a completed reduction here: with events at time 0 still pending (a run stopped
+		// right at its beginning) the computed GVT is 0.0, the same value used for "not completed yet"
+		gvt_round_done = false;
+		while(gvt_phase_run(), !gvt_round_done)
 			mpi_remote_msg_drain();
 		RSV_EV(RSV_EV_STAGE, NULL, 4 + i, 0, 0.0);
 	}
